@@ -10,7 +10,8 @@ CHECKS = {
         'worker wire path; on each store every combination of constraints from the menus, every '
         '(index, limit) page, page concatenation and every facet is compared with a brute-force '
         'filter over the inserted keys; all 65 640 run-id expressions of <= 3 terms are checked for '
-        'denotation-preserving normalisation (and through find() on selected stores). Complete '
+        'denotation-preserving normalisation (and through find() on selected stores). The front-end entry '
+        'points fe.api.facet.* and fe.api.database.search are called with URL-style parameters on every store. Complete '
         'enumeration of that finite space, no sampling.',
         'note': 'shelve back end only (db/post/search.py needs a PostgreSQL server that does not exist '
         'in the sandbox); range a:b is half-open as Range.__contains__ defines; run id -1 excluded; '
